@@ -13,6 +13,143 @@ let show_dec = function
 
 let bool_of_string01 s = (s = "1")
 
+(* ---- token reader for the proto values (same grammar as the Go harness) ---- *)
+let toks : string list ref = ref []
+let next () = match !toks with
+  | [] -> failwith "out of tokens"
+  | t :: r -> toks := r; t
+let p_n () = n_of_string (next ())
+let p_z () = z_of_string (next ())
+let p_b () = bool_of_string01 (next ())
+let p_bytes () = bytes_of_hex (next ())
+let p_opt () = let t = next () in if t = "~" then None else Some (bytes_of_hex t)
+let p_list f = let c = int_of_string (next ()) in List.init c (fun _ -> f ())
+let p_entry () =
+  let t = p_n () in let i = p_n () in let ty = p_z () in let k = p_n () in let c = p_n () in
+  let s = p_n () in let r = p_n () in let cmd = p_bytes () in
+  { e_term = t; e_index = i; e_type = ty; e_key = k; e_client = c; e_series = s;
+    e_responded = r; e_cmd = cmd }
+let p_state () = let a = p_n () in let b = p_n () in let c = p_n () in
+  { st_term = a; st_vote = b; st_commit = c }
+let p_session () = let a = p_n () in let b = p_n () in let c = p_n () in let d = p_n () in
+  { ss_shard = a; ss_client = b; ss_series = c; ss_responded = d }
+let p_cc () = let a = p_n () in let b = p_z () in let c = p_n () in let d = p_bytes () in let e = p_b () in
+  { cc_id = a; cc_type = b; cc_replica = c; cc_address = d; cc_init = e }
+let p_sf () = let a = p_bytes () in let b = p_n () in let c = p_n () in let d = p_opt () in
+  { sf_filepath = a; sf_filesize = b; sf_fileid = c; sf_metadata = d }
+let p_sh () =
+  let a = p_n () in let b = p_n () in let c = p_n () in let d = p_bytes () in let e = p_opt () in
+  let f = p_opt () in let g = p_z () in let h = p_n () in let i = p_z () in
+  { sh_session_size = a; sh_datastore_size = b; sh_unreliable_time = c; sh_git_version = d;
+    sh_header_checksum = e; sh_payload_checksum = f; sh_checksum_type = g; sh_version = h;
+    sh_compression_type = i }
+let p_rds () =
+  let a = p_bytes () in let b = p_n () in let c = p_n () in let d = p_bytes () in let e = p_bytes () in
+  let f = p_n () in let g = p_n () in let h = p_n () in let i = p_n () in let j = p_n () in let k = p_b () in
+  { rds_address = a; rds_binver = b; rds_hardhash = c; rds_logdbtype = d; rds_hostname = e;
+    rds_deployment = f; rds_stepworkers = g; rds_logdbshards = h; rds_maxsessions = i;
+    rds_entrybatch = j; rds_addr_by_nhid = k }
+let p_smap () = p_list (fun () -> let k = p_n () in let v = p_bytes () in (k, v))
+let p_bmap () = p_list (fun () -> let k = p_n () in let v = p_b () in (k, v))
+let p_mb () =
+  let a = p_n () in let b = p_smap () in let c = p_bmap () in let d = p_smap () in let e = p_smap () in
+  { mb_ccid = a; mb_addresses = b; mb_removed = c; mb_nonvotings = d; mb_witnesses = e }
+let p_bs () = let a = p_smap () in let b = p_b () in let c = p_z () in
+  { bs_addresses = a; bs_join = b; bs_type = c }
+let p_sn () =
+  let a = p_bytes () in let b = p_n () in let c = p_n () in let d = p_n () in let e = p_mb () in
+  let f = p_list p_sf in let g = p_opt () in let h = p_b () in let i = p_n () in let j = p_z () in
+  let k = p_b () in let l = p_n () in let m = p_b () in
+  { sn_filepath = a; sn_filesize = b; sn_index = c; sn_term = d; sn_membership = e; sn_files = f;
+    sn_checksum = g; sn_dummy = h; sn_shard = i; sn_type = j; sn_imported = k; sn_ondisk = l;
+    sn_witness = m }
+let p_msg () =
+  let a = p_z () in let b = p_n () in let c = p_n () in let d = p_n () in let e = p_n () in
+  let f = p_n () in let g = p_n () in let h = p_n () in let i = p_b () in let j = p_n () in
+  let k = p_list p_entry in let l = p_sn () in let m = p_n () in
+  { m_type = a; m_to = b; m_from = c; m_shard = d; m_term = e; m_logterm = f; m_logindex = g;
+    m_commit = h; m_reject = i; m_hint = j; m_entries = k; m_snapshot = l; m_hinthigh = m }
+let p_bt () = let a = p_list p_msg in let b = p_n () in let c = p_bytes () in let d = p_n () in
+  { bt_requests = a; bt_deployment = b; bt_source = c; bt_binver = d }
+let p_ck () =
+  let a = p_n () in let b = p_n () in let c = p_n () in let d = p_n () in let e = p_n () in
+  let f = p_n () in let g = p_opt () in let h = p_n () in let i = p_n () in let j = p_mb () in
+  let k = p_bytes () in let l = p_n () in let m = p_n () in let n = p_n () in let o = p_n () in
+  let p = p_b () in let q = p_sf () in let r = p_n () in let s = p_n () in let t = p_b () in
+  { ck_shard = a; ck_replica = b; ck_from = c; ck_id = d; ck_size = e; ck_count = f; ck_data = g;
+    ck_index = h; ck_term = i; ck_membership = j; ck_filepath = k; ck_filesize = l;
+    ck_deployment = m; ck_filechunkid = n; ck_filechunkcount = o; ck_hasfileinfo = p;
+    ck_fileinfo = q; ck_binver = r; ck_ondisk = s; ck_witness = t }
+let p_update () =
+  let a = p_n () in let b = p_n () in let c = p_state () in let d = p_list p_entry in let e = p_sn () in
+  { u_shard = a; u_replica = b; u_state = c; u_entries = d; u_snapshot = e }
+
+(* decoded maps are printed in ascending key order (the Go side sorts too) *)
+let n_compare a b =
+  let sa = string_of_n a and sb = string_of_n b in
+  if String.length sa <> String.length sb then compare (String.length sa) (String.length sb)
+  else compare sa sb
+let sort_map m = List.stable_sort (fun (a, _) (b, _) -> n_compare a b) m
+let canon_mb m = { m with mb_addresses = sort_map m.mb_addresses; mb_removed = sort_map m.mb_removed;
+                   mb_nonvotings = sort_map m.mb_nonvotings; mb_witnesses = sort_map m.mb_witnesses }
+let canon_bs b = { b with bs_addresses = sort_map b.bs_addresses }
+let canon_sn s = { s with sn_membership = canon_mb s.sn_membership }
+let canon_msg m = { m with m_snapshot = canon_sn m.m_snapshot }
+let canon_bt b = { b with bt_requests = List.map canon_msg b.bt_requests }
+let canon_ck c = { c with ck_membership = canon_mb c.ck_membership }
+let canon_upd u = { u with u_snapshot = canon_sn u.u_snapshot }
+let omap f = function Some v -> Some (f v) | None -> None
+
+let show_rt enc = function
+  | Some v -> "ok " ^ hex_of_bytes (enc v)
+  | None -> "err"
+
+(* PB <type> tokens: ENC hex SIZE n [UPPER n] DEC <re-encoding of the decoded value> *)
+let pb_value ty =
+  let one enc size dec upper v =
+    let b = enc v in
+    Printf.sprintf "ENC %s SIZE %s%s DEC %s" (hex_of_bytes b) (string_of_n (size v))
+      (match upper with Some f -> " UPPER " ^ string_of_n (f v) | None -> "")
+      (show_rt enc (dec b)) in
+  let onec enc size dec upper cn v = one enc size (fun b -> omap cn (dec b)) upper v in
+  match ty with
+  | "state" -> one state_encode state_size state_decode (Some (fun _ -> state_size_upper)) (p_state ())
+  | "session" -> one session_encode session_size session_decode None (p_session ())
+  | "cc" -> one cc_encode cc_size cc_decode None (p_cc ())
+  | "sf" -> one sf_encode sf_size sf_decode None (p_sf ())
+  | "sh" -> one sh_encode sh_size sh_decode None (p_sh ())
+  | "rds" -> one rds_encode rds_size rds_decode None (p_rds ())
+  | "eb" -> one eb_encode eb_size eb_decode (Some eb_size_upper) (p_list p_entry)
+  | "mb" -> onec mb_encode mb_size mb_decode None canon_mb (p_mb ())
+  | "bs" -> onec bs_encode bs_size bs_decode None canon_bs (p_bs ())
+  | "sn" -> onec sn_encode sn_size sn_decode None canon_sn (p_sn ())
+  | "msg" -> onec msg_encode msg_size msg_decode (Some msg_size_upper) canon_msg (p_msg ())
+  | "bt" -> onec bt_encode bt_size bt_decode (Some bt_size_upper) canon_bt (p_bt ())
+  | "ck" -> onec ck_encode ck_size_of ck_decode None canon_ck (p_ck ())
+  | _ -> failwith ("unknown type " ^ ty)
+
+let pb_decode ty b =
+  match ty with
+  | "state" -> show_rt state_encode (state_decode b)
+  | "session" -> show_rt session_encode (session_decode b)
+  | "cc" -> show_rt cc_encode (cc_decode b)
+  | "sf" -> show_rt sf_encode (sf_decode b)
+  | "sh" -> show_rt sh_encode (sh_decode b)
+  | "rds" -> show_rt rds_encode (rds_decode b)
+  | "eb" -> show_rt eb_encode (eb_decode b)
+  | "mb" -> show_rt mb_encode (omap canon_mb (mb_decode b))
+  | "bs" -> show_rt bs_encode (omap canon_bs (bs_decode b))
+  | "sn" -> show_rt sn_encode (omap canon_sn (sn_decode b))
+  | "msg" -> show_rt msg_encode (omap canon_msg (msg_decode b))
+  | "bt" -> show_rt bt_encode (omap canon_bt (bt_decode b))
+  | "ck" -> show_rt ck_encode (omap canon_ck (ck_decode b))
+  | _ -> failwith ("unknown type " ^ ty)
+
+let show_ures = function
+  | UOk u -> "ok " ^ hex_of_bytes (update_encode (canon_upd u))
+  | UErr -> "err"
+  | UPanic -> "panic"
+
 let show_hdr (h : header) =
   Printf.sprintf "%s %s %s" (string_of_n h.h_method) (string_of_n h.h_size) (string_of_n h.h_crc)
 
@@ -43,6 +180,19 @@ let () =
       Printf.printf "%s WRITE %s READ %s\n" id (hex_of_bytes s) (show_verdict (read_frame e s))
     | [id; "FRAME"; enc; _rb; _tag; s] ->
       Printf.printf "%s FRAME %s\n" id (show_verdict (read_frame (bool_of_string01 enc) (bytes_of_hex s)))
+    | id :: "PB" :: ty :: rest ->
+      toks := rest;
+      Printf.printf "%s PB %s\n" id (pb_value ty)
+    | [id; "PBDEC"; ty; hx] ->
+      Printf.printf "%s PBDEC %s\n" id (pb_decode ty (bytes_of_hex hx))
+    | id :: "UPD" :: rest ->
+      toks := rest;
+      let u = p_update () in
+      let b = update_encode u in
+      Printf.printf "%s UPD ENC %s UPPER %s DEC %s\n" id (hex_of_bytes b)
+        (string_of_n (update_size_upper u)) (show_ures (update_decode b))
+    | [id; "UPDDEC"; hx] ->
+      Printf.printf "%s UPDDEC %s\n" id (show_ures (update_decode (bytes_of_hex hx)))
     | [id; "CRC"; p] ->
       Printf.printf "%s CRC %s\n" id (string_of_n (crc32 (bytes_of_hex p)))
     | [id; "ENTRY"; t; i; ty; k; c; s; r; cmd] ->
